@@ -567,7 +567,7 @@ class Builder:
             c = self.col(i, name) if ch != "cmpexpr" else self.num_series(i, 1)
             op = r.choice(("gt", "lt", "ge", "le") + (("eq", "ne") if cols[name] == "i" else ()))
             if ch == "cmpred":
-                src = c if r.random() < 0.6 else self.col(0, r.choice(("a", "c", "d")))
+                src = c if r.random() < 0.75 else self.col(0, r.choice(("a", "c", "d")))
                 rhs = {"n": self.red(src, r.choice(("mean", "mean", "min", "max", "std")))}
             else:
                 rhs = {"k": self.const_for(name)}
@@ -667,7 +667,8 @@ class Builder:
             nc = {k: v for k, v in m["cols"].items() if k != key}
             return self.add(["set_index", i, key], self.fmeta(i, cols=nc, lin=self.newlin(), ord=key in m["uniq"], idx=True))
         if kind == "sort_values":
-            c = [x for x in cols if m["cols"][x] in NUM]
+            # not the NaN-bearing column c: sorting an all-NaN key fails in the quantile planner before any rewrite (C39)
+            c = [x for x in cols if m["cols"][x] in NUM and not x.lower().startswith("c")]
             if not c:
                 return None
             key = r.choice(c)
@@ -963,6 +964,12 @@ def templates():
     # x = df[df.a > 1]; x[['a','c']][x.c > x.c.mean()]  (filter on column of parent, reduction in predicate, then projection)
     T["filter-proj-filter-red"] = (_t(["col", 0, "a"], ["sbin", "gt", N(1), K(1)], ["filt", 0, 2], ["col", 3, "c"], ["red", 4, "mean"],
                                       ["sbin", "gt", N(4), N(5)], ["filt", 3, 6], ["proj", 7, ["a", "c"]]), True)
+    # second filter compares a column with its mean over the ALREADY FILTERED rows (same column in both predicates, so
+    # that a mean taken over the unfiltered rows selects visibly different rows)
+    T["filter-then-filter-by-mean-of-filtered"] = (_t(["col", 0, "u"], ["sbin", "gt", N(1), K(4)], ["filt", 0, 2], ["col", 3, "u"], ["red", 4, "mean"],
+                                                      ["sbin", "lt", N(4), N(5)], ["filt", 3, 6]), True)
+    T["filter-then-filter-by-max-of-filtered"] = (_t(["col", 0, "c"], ["sbin", "lt", N(1), K(0.3)], ["filt", 0, 2], ["col", 3, "c"], ["red", 4, "max"],
+                                                     ["sbin", "ge", N(4), N(5)], ["filt", 3, 6], ["proj", 7, ["c", "a"]]), True)
     # assign shadowing then project and filter on it
     T["assign-shadow-proj-filter"] = (_t(["col", 0, "a"], ["col", 0, "d"], ["sbin", "add", N(1), N(2)], ["assign", 0, "a", 3],
                                          ["proj", 4, ["a", "b"]], ["col", 5, "a"], ["sbin", "gt", N(6), K(1)], ["filt", 5, 7]), True)
